@@ -123,6 +123,15 @@ Theorem C15_bsearch : forall l x, tablets_inv l ->
   partition_point_bs (fun t => t_first t <=? x) l = partition_point (fun t => t_first t <=? x) l.
 Proof. exact partition_point_bs_eq. Qed.
 
+(* histories as ClusterState produces them (payloads resolved against the current known nodes;
+   every refresh derives removed / recreated nodes from the old and new known nodes, state.rs
+   perform_tablets_maintenance): every replica a table answers with is one of the CURRENT Node
+   objects -- no removed node and no stale object of a recreated node is ever handed out *)
+Theorem C15_no_stale_nodes : forall known0 h s k tok t r,
+  Forall op_i64 (cluster_ops known0 h) -> run (cluster_ops known0 h) = Some s ->
+  lookup_tablet s k tok = Some t -> In r (r_all (t_reps t)) -> In (fst r) (cluster_known known0 h).
+Proof. exact cluster_no_stale_nodes. Qed.
+
 (* non-vacuity: concrete histories meeting the hypotheses, with non-trivial outcomes *)
 Definition ex_n1 := mkNode 1 0 (Some 0%N).
 Definition ex_n2 := mkNode 2 0 (Some 1%N).
@@ -181,6 +190,17 @@ Example C15_ex_bsearch :
   partition_point_bs (fun x => x <? 5) [7] = 0%nat /\ partition_point_bs (fun x => x <? 5) ([] : list Z) = 0%nat.
 Proof. repeat split; vm_compute; reflexivity. Qed.
 
+Example C15_ex_cluster :
+  let h := [ CLearn (1, 1)%N 0 10 [(1%N, 0); (3%N, 1)];                   (* replica 3 unknown *)
+             CRefresh ex_schema [ex_n1'; ex_n2; mkNode 3 0 None];         (* 3 appears, 1 recreated (dc change) *)
+             CLearn (1, 1)%N 10 20 [(2%N, 0)];
+             CRefresh ex_schema [ex_n1'; mkNode 3 0 None] ] in            (* 2 removed *)
+  cluster_known [ex_n1; ex_n2] h = [ex_n1'; mkNode 3 0 None] /\
+  exists s, run (cluster_ops [ex_n1; ex_n2] h) = Some s /\
+    lookup s (1, 1)%N 5 = Some [(ex_n1', 0%N); (mkNode 3 0 None, 1%N)] /\ lookup s (1, 1)%N 15 = None /\
+    lookup_dc s (1, 1)%N 5 1 = Some [(ex_n1', 0%N)] /\ lookup_dc s (1, 1)%N 5 0 = Some [].
+Proof. split; [reflexivity|]. eexists. split; [vm_compute; reflexivity|]. repeat split; vm_compute; reflexivity. Qed.
+
 Print Assumptions C15_no_panic.
 Print Assumptions C15_inv.
 Print Assumptions C15_every_step.
@@ -198,3 +218,4 @@ Print Assumptions C15_maint_clean.
 Print Assumptions C15_flags.
 Print Assumptions C15_present.
 Print Assumptions C15_bsearch.
+Print Assumptions C15_no_stale_nodes.
